@@ -85,22 +85,22 @@ def render_gap(case, order, pn):
 
 
 def rigid_tname(t, ren):
-    return tname(t, ren).replace("int", "G")
+    return tname(t, ren).replace("int", "G").replace("str", "H")
 
 
-RIGID_ARG = {"int": "g", "str": '"s"', "seq:int": "[g]", "seq:str": '["s"]', "opt:int": "some(g)", "fn": "((q: G) -> {q})"}
+RIGID_ARG = {"int": "g", "str": "h", "seq:int": "[g]", "seq:str": "[h]", "opt:int": "some(g)", "fn": "((q: G) -> {q})"}
 
 
 def render_rigid(case, order, pn):
-    """the whole case inside `fn outer<G>(g: G)` with the ground type int renamed to the opaque parameter G:
-    an opaque type parameter resolves like any other ground type"""
+    """the whole case inside `fn outer<G, H>(g: G, h: H)` with the ground types int and str renamed to the opaque
+    parameters G and H: opaque type parameters resolve like any other (distinct) ground types"""
     def decl(c):
         gens = sorted(c["gen"])
         ps = []
         for i, p in enumerate(c["ps"]):
             s = "%s%d: %s" % (pn, i, rigid_tname(p["ty"], {}))
             if p["opt"]:
-                s += " ?= " + ('"d"' if p["ty"]["k"] == "str" else "g" if p["ty"]["k"] == "int" else "0")
+                s += " ?= " + ("h" if p["ty"]["k"] == "str" else "g" if p["ty"]["k"] == "int" else "0")
             ps.append(s)
         return "fn ov%s(%s)->int { %d }" % ("<%s>" % ", ".join(gens) if gens else "", ", ".join(ps), c["tag"])
 
@@ -119,7 +119,7 @@ def render_rigid(case, order, pn):
     outer = "".join("    " + decl(c) + "\n" for c in cands if c["lvl"] == 0)
     inner = "".join("        " + decl(c) + "\n" for c in cands if c["lvl"] == 1)
     call = "ov(%s)" % ", ".join(asrc(a) for a in case["args"])
-    return "fn outer<G>(g: G)->int {\n%s    fn site()->int {\n%s        %s\n    }\n    site()\n}\nlet r = outer(7);\n" % (outer, inner, call)
+    return "fn outer<G, H>(g: G, h: H)->int {\n%s    fn site()->int {\n%s        %s\n    }\n    site()\n}\nlet r = outer(7, true);\n" % (outer, inner, call)
 
 
 def template_programs():
@@ -136,6 +136,26 @@ def template_programs():
               {"a": True, "b": True, "c": True}))
     T.append(("dyn_to_str_finds_user", "struct P(x: int)\nfn to_str(a: P)->str { \"P!\" }\nlet a = [P(1), P(2)].to_str();\nlet b = (P(1), 2).to_str();",
               {"a": None, "b": None}))
+    # several forward declarations of one name: each implementation fulfils the declaration with ITS signature,
+    # whatever the order of the declarations and of the implementations
+    sigs = {"a1": ("a: int", "\"one:\" + a.to_str()", "1", "one:1"), "a2": ("a: int, b: int", "\"two:\" + (a + b).to_str()", "1, 2", "two:3"),
+            "a3": ("a: int, b: int, c: int", "\"three:\" + (a + b + c).to_str()", "1, 2, 3", "three:6"), "s1": ("a: str", "\"str:\" + a", "\"z\"", "str:z")}
+    k = 0
+    for group in (("a1", "a2"), ("a2", "a3"), ("a1", "a2", "a3"), ("a1", "s1"), ("s1", "a2")):
+        for fo in itertools.permutations(group):
+            for io in itertools.permutations(group):
+                if len(group) == 3 and (fo[0] != group[0] and io[0] != group[2]):
+                    continue
+                src = "".join("forward fn tag(%s)->str;\n" % sigs[g][0] for g in fo)
+                src += "".join("fn use_%s()->str { tag(%s) }\n" % (g, sigs[g][2]) for g in group)
+                src += "".join("fn tag(%s)->str { %s }\n" % (sigs[g][0], sigs[g][1]) for g in io)
+                src += "".join("let r_%s = use_%s();\nlet d_%s = tag(%s);\n" % (g, g, g, sigs[g][2]) for g in group)
+                exp = {}
+                for g in group:
+                    exp["r_" + g] = sigs[g][3]
+                    exp["d_" + g] = sigs[g][3]
+                T.append(("fwd_overloads_%d" % k, src, exp))
+                k += 1
     return T
 
 
